@@ -21,6 +21,7 @@ import (
 	"context"
 	"database/sql/driver"
 	"fmt"
+	"strconv"
 	"strings"
 
 	"github.com/arana-db/parser/ast"
@@ -543,14 +544,20 @@ func (i *insertExecutor) autoGeneratePks(execCtx *types.ExecContext, autoColumnN
 			return nil, err
 		}
 
+		defer rows.Close()
 		if len(rows.Columns()) > 0 {
-			var curStep []driver.Value
+			// the result row is (Variable_name, Value)
+			curStep := make([]driver.Value, len(rows.Columns()))
 			if err := rows.Next(curStep); err != nil {
 				return nil, err
 			}
-
-			if curStepInt, ok := curStep[0].(int64); ok {
-				step = curStepInt
+			switch v := curStep[len(curStep)-1].(type) {
+			case int64:
+				step = v
+			case []byte:
+				step, _ = strconv.ParseInt(string(v), 10, 64)
+			case string:
+				step, _ = strconv.ParseInt(v, 10, 64)
 			}
 		} else {
 			return nil, fmt.Errorf("query is empty")
